@@ -570,7 +570,7 @@ impl<'e> Sim<'e> {
             OpKind::Mutate { k, vh, .. } => {
                 if let Some(i) = a.find(*k) {
                     let e = &a.entries[i];
-                    let ns = (e.size - e.vheap) as u128 + *vh as u128;
+                    let ns = e.size.saturating_sub(e.vheap) as u128 + *vh as u128;
                     if ns > a.max as u128 {
                         self.probes.hit("mutate_overflow");
                         if a.len == 1 {
@@ -586,7 +586,7 @@ impl<'e> Sim<'e> {
                         if departed >= 2 {
                             self.probes.hit("mutate_growth_evicts_2plus");
                         }
-                        if (a.cur - e.size) as u128 + ns == a.max as u128 {
+                        if a.cur.saturating_sub(e.size) as u128 + ns == a.max as u128 {
                             self.probes.hit("mutate_exact_fit");
                         }
                     } else if ns < e.size as u128 {
@@ -607,7 +607,7 @@ impl<'e> Sim<'e> {
                 }
             }
             OpKind::Retain { .. } => {
-                if a.len >= 2 && b.find(a.entries[0].id).is_none() && b.find(a.entries[a.len - 1].id).is_none() {
+                if a.entries.len() >= 2 && b.find(a.entries[0].id).is_none() && b.find(a.entries[a.entries.len() - 1].id).is_none() {
                     self.probes.hit("retain_removes_both_ends");
                 }
                 if departed == a.len && a.len > 0 {
